@@ -502,6 +502,10 @@ pub fn run(tier: Tier) -> i32 {
             r##"<svg><var v="1"/><if test="1"><rect id="z" wh="1"/><if test="1"><var v="3"/><rect xy="#z|h" wh="1"/></if><var v="1"/></if><text text="[$v]"/></svg>"##),
         ("comment-attribute-is-no-variable", r##"<svg><g _="abc" __="def"><text text="[${_}|${__}]"/></g><specs><text id="t" text="[${_}]"/></specs><reuse href="#t" _="ghi"/></svg>"##,
             r##"<svg><g><text text="[${_}|${__}]"/></g><specs><text id="t" text="[${_}]"/></specs><reuse href="#t"/></svg>"##),
+        // a value which holds an undefined $name is that text wherever it is read: inside an expression it is not
+        // looked up again in the reader's scope (here: it is no number in either document)
+        ("value-rescanned-in-expression/group-local", r##"<svg><var v="$w"/><g w="1"><text text="[{{$v}}]"/></g></svg>"##,
+            r##"<svg><var v="$w"/><g q="1"><text text="[{{$v}}]"/></g></svg>"##),
         ("retry-consumes-random-draws-toplevel", r##"<svg><rect xy="#z|h" wh="{{randint(1,9)}}"/><rect id="z" wh="3"/><var r="{{randint(1,1000)}}"/><text text="[$r]"/></svg>"##,
             r##"<svg><rect id="z" wh="3"/><rect xy="#z|h" wh="{{randint(1,9)}}"/><var r="{{randint(1,1000)}}"/><text text="[$r]"/></svg>"##),
     ];
